@@ -87,8 +87,12 @@ func (b *Buffer[K, V]) Add(n ReadBufItem[K, V]) *PolicyBuffers[K, V] {
 	tail := b.tail.Load()
 	size := tail - head
 	if size >= capacity {
-		// full buffer
-		return nil
+		// full buffer: the producer which claimed the last slot was not able
+		// to take the policy buffers (the previous batch was still being
+		// processed), so nobody drained. The item is dropped, but try to drain
+		// on its behalf, otherwise the buffer would stay full forever because
+		// no later producer can become "the one which fills the last slot".
+		return b.drain()
 	}
 	if b.tail.CompareAndSwap(tail, tail+1) {
 		// success
@@ -99,31 +103,54 @@ func (b *Buffer[K, V]) Add(n ReadBufItem[K, V]) *PolicyBuffers[K, V] {
 		}))
 		if size == capacity-1 {
 			// try return new buffer
-			if !atomic.CompareAndSwapPointer(&b.returned, b.policyBuffers, nil) {
-				// somebody already get buffer
-				return nil
-			}
-
-			pb := (*PolicyBuffers[K, V])(b.policyBuffers)
-			for i := 0; i < capacity; i++ {
-				index := int(head & mask)
-				v := atomic.LoadPointer(&b.buffer[index])
-				if v != nil {
-					// published
-					pb.Returned = append(pb.Returned, *castToPointer[K, V](v))
-					// release
-					atomic.StorePointer(&b.buffer[index], nil)
-				}
-				head++
-			}
-
-			b.head.Store(head)
-			return pb
+			return b.drain()
 		}
 	}
 
 	// failed
 	return nil
+}
+
+// drain tries to take the policy buffers and, on success, moves all published
+// items of a full ring into it. It returns nil if somebody else owns the policy
+// buffers or the ring is not full (anymore).
+//
+// The policy buffers pointer acts as a token: only its owner may modify head
+// and PolicyBuffers.Returned, and the owner must hand it back with Free.
+func (b *Buffer[K, V]) drain() *PolicyBuffers[K, V] {
+	if atomic.LoadPointer(&b.returned) == nil ||
+		!atomic.CompareAndSwapPointer(&b.returned, b.policyBuffers, nil) {
+		// somebody already get buffer
+		return nil
+	}
+
+	// head/tail loaded before the token was acquired can't be trusted, another
+	// consumer may have drained and freed in between. head is stable from now on
+	// because only the token owner stores it.
+	head := b.head.Load()
+	tail := b.tail.Load()
+	if tail-head < capacity {
+		// already drained by somebody else, hand the untouched buffers back.
+		// The producer which fills the last slot will try again.
+		atomic.StorePointer(&b.returned, b.policyBuffers)
+		return nil
+	}
+
+	pb := (*PolicyBuffers[K, V])(b.policyBuffers)
+	for i := 0; i < capacity; i++ {
+		index := int(head & mask)
+		v := atomic.LoadPointer(&b.buffer[index])
+		if v != nil {
+			// published
+			pb.Returned = append(pb.Returned, *castToPointer[K, V](v))
+			// release
+			atomic.StorePointer(&b.buffer[index], nil)
+		}
+		head++
+	}
+
+	b.head.Store(head)
+	return pb
 }
 
 // Load all items in buffer, used in test only to update policy proactive proactively
@@ -162,7 +189,8 @@ func (b *Buffer[K, V]) Clear() {
 	for i := 0; i < capacity; i++ {
 		atomic.StorePointer(&b.buffer[i], nil)
 	}
-	b.Free()
 	b.tail.Store(0)
 	b.head.Store(0)
+	// hand the policy buffers back last, so nobody drains while counters are reset
+	b.Free()
 }
